@@ -43,6 +43,30 @@ Fixpoint cap_lookup (k : nat) (cs : caps) : option (nat * nat) :=
 Definition mres := option (nat * caps).   (* end position, captures *)
 Definition cont := bytes -> nat -> caps -> mres.
 
+(* a{m,n}: up to n more iterations, at least m; greedy *)
+Fixpoint rep_loop (step : bytes -> nat -> caps -> cont -> mres) (k : cont) (m n : nat)
+                  (s : bytes) (pos : nat) (cs : caps) {struct n} : mres :=
+  match n with
+  | O => match m with O => k s pos cs | S _ => None end
+  | S n' =>
+      match step s pos cs (fun s' p' c' => rep_loop step k (pred m) n' s' p' c') with
+      | Some x => Some x
+      | None => match m with O => k s pos cs | S _ => None end
+      end
+  end.
+
+(* a*: greedy; an iteration that consumes nothing is not repeated *)
+Fixpoint star_loop (step : bytes -> nat -> caps -> cont -> mres) (k : cont) (fuel : nat)
+                   (s : bytes) (pos : nat) (cs : caps) {struct fuel} : mres :=
+  match fuel with
+  | O => k s pos cs
+  | S f =>
+      match step s pos cs (fun s' p' c' => if Nat.eqb p' pos then None else star_loop step k f s' p' c') with
+      | Some x => Some x
+      | None => k s pos cs
+      end
+  end.
+
 (* bt r s pos cs k: match r against a prefix of the remaining input s, which starts at
    absolute position pos of the text; alternatives are tried in priority order and the first
    one whose continuation succeeds wins. *)
@@ -61,26 +85,8 @@ Fixpoint bt (r : re) (s : bytes) (pos : nat) (cs : caps) (k : cont) {struct r} :
       | Some x => Some x
       | None => bt b s pos cs k
       end
-  | Star a =>
-      (fix loop (fuel : nat) (s : bytes) (pos : nat) (cs : caps) {struct fuel} : mres :=
-         match fuel with
-         | O => k s pos cs
-         | S f =>
-             match bt a s pos cs (fun s' p' c' => if Nat.eqb p' pos then None else loop f s' p' c') with
-             | Some x => Some x
-             | None => k s pos cs
-             end
-         end) (S (length s)) s pos cs
-  | Rep a m n =>
-      (fix loop (m n : nat) (s : bytes) (pos : nat) (cs : caps) {struct n} : mres :=
-         match n with
-         | O => match m with O => k s pos cs | S _ => None end
-         | S n' =>
-             match bt a s pos cs (fun s' p' c' => loop (pred m) n' s' p' c') with
-             | Some x => Some x
-             | None => match m with O => k s pos cs | S _ => None end
-             end
-         end) m n s pos cs
+  | Star a => star_loop (bt a) k (S (length s)) s pos cs
+  | Rep a m n => rep_loop (bt a) k m n s pos cs
   | Bol => match pos with O => k s pos cs | S _ => None end
   | Eol => match s with [] => k s pos cs | _ :: _ => None end
   | Grp g a => bt a s pos cs (fun s' p' c' => k s' p' ((g, (pos, p')) :: c'))
